@@ -5,6 +5,8 @@
 //! are leaves. The real `DfsScheduler` is driven exactly as the runtime drives it
 //! (`new_execution`, then `next_task` per scheduling point with the runnable list in ascending id
 //! order). One solver query covers every tree of that depth (3^(2^D-1) trees).
+#[cfg(not(kani))]
+use crate::shim as kani;
 use shuttle_engine::runtime::task::clock::VectorClock;
 use shuttle_engine::scheduler::{Scheduler, Task, TaskId};
 use shuttle_schedulers::DfsScheduler;
@@ -15,25 +17,27 @@ fn mk_task(id: usize) -> Task {
 
 /// `ID1` is the id of the second task offered (1 = contiguous ids, 2 = a gap: the scheduler
 /// finds the next sibling by position in the list, not by id arithmetic).
-fn dfs_tree<const D: usize, const NODES: usize, const ID1: usize>(max_iterations: Option<usize>) {
-    // NODES = 2^(D+1)
+/// Depth-2 trees (nodes 1..=7: internal 1..=3, leaves 4..=7). Harness loops are unrolled.
+fn dfs_tree2<const ID1: usize>(max_iterations: Option<usize>) {
+    const NODES: usize = 8;
+    const D: usize = 2;
     let t0 = mk_task(0);
     let t1 = mk_task(ID1);
     let mut kind = [0u8; NODES];
     let mut i = 1;
-    while i < NODES / 2 {
+    crate::unroll!(3, {
         let k: u8 = kani::any();
         kani::assume(k <= 2);
         kind[i] = k;
         i += 1;
-    }
+    });
     // reachable leaves of the tree
     let mut reach = [false; NODES];
     let mut leaf = [false; NODES];
     reach[1] = true;
     let mut n_leaves = 0usize;
     let mut node = 1;
-    while node < NODES {
+    crate::unroll!(7, {
         if reach[node] {
             if node >= NODES / 2 || kind[node] == 0 {
                 leaf[node] = true;
@@ -46,7 +50,7 @@ fn dfs_tree<const D: usize, const NODES: usize, const ID1: usize>(max_iterations
             }
         }
         node += 1;
-    }
+    });
 
     let mut sched = DfsScheduler::new(max_iterations, true);
     let mut visited = [false; NODES];
@@ -54,104 +58,94 @@ fn dfs_tree<const D: usize, const NODES: usize, const ID1: usize>(max_iterations
     let mut first_seed: u64 = 0;
     let mut first_draw: u64 = 0;
     let mut terminated = false;
-    let max_execs = NODES / 2 + 1; // number of leaves is at most 2^D
-    let mut e = 0;
-    while e <= max_execs {
-        let s = sched.new_execution();
-        match s {
-            None => {
-                terminated = true;
-                break;
-            }
-            Some(sch) => {
-                // same fixed data stream in every execution
-                let d = sched.next_u64();
-                if execs == 0 {
-                    first_seed = sch.seed;
-                    first_draw = d;
-                } else {
-                    assert!(sch.seed == first_seed, "C09: DFS execution reports a different data seed");
-                    assert!(d == first_draw, "C09: DFS data stream differs between executions");
+    // at most 4 leaves: 4 executions and a fifth call that must return None
+    crate::unroll!(5, {
+        if !terminated {
+            let s = sched.new_execution();
+            match s {
+                None => {
+                    terminated = true;
                 }
-                std::mem::forget(sch);
+                Some(sch) => {
+                    // same fixed data stream in every execution
+                    let d = sched.next_u64();
+                    if execs == 0 {
+                        first_seed = sch.seed;
+                        first_draw = d;
+                    } else {
+                        assert!(sch.seed == first_seed, "C09: DFS execution reports a different data seed");
+                        assert!(d == first_draw, "C09: DFS data stream differs between executions");
+                    }
+                    std::mem::forget(sch);
+                    let mut node = 1usize;
+                    let mut current: Option<TaskId> = None;
+                    let mut ended = false;
+                    crate::unroll!(2, {
+                        if !ended {
+                            if kind[node] == 0 {
+                                ended = true;
+                            } else {
+                                let c = if kind[node] == 1 {
+                                    let r: [&Task; 1] = [&t0];
+                                    sched.next_task(&r, current, false)
+                                } else {
+                                    let r: [&Task; 2] = [&t0, &t1];
+                                    sched.next_task(&r, current, false)
+                                };
+                                let c = c.unwrap();
+                                let right = c == t1.id();
+                                assert!(right || c == t0.id(), "C09: DFS chose a task that was not offered");
+                                assert!(!(right && kind[node] == 1), "C09: DFS chose a task that was not offered");
+                                node = 2 * node + if right { 1 } else { 0 };
+                                current = Some(c);
+                            }
+                        }
+                    });
+                    assert!(leaf[node]);
+                    assert!(!visited[node], "C09: DFS ran the same schedule twice");
+                    visited[node] = true;
+                    execs += 1;
+                }
             }
         }
-        let mut node = 1usize;
-        let mut current: Option<TaskId> = None;
-        let mut depth = 0;
-        while depth < D {
-            if kind[node] == 0 {
-                break;
-            }
-            let c = if kind[node] == 1 {
-                let r: [&Task; 1] = [&t0];
-                sched.next_task(&r, current, false)
-            } else {
-                let r: [&Task; 2] = [&t0, &t1];
-                sched.next_task(&r, current, false)
-            };
-            let c = c.unwrap();
-            let right = c == t1.id();
-            assert!(right || c == t0.id(), "C09: DFS chose a task that was not offered");
-            assert!(!(right && kind[node] == 1), "C09: DFS chose a task that was not offered");
-            node = 2 * node + if right { 1 } else { 0 };
-            current = Some(c);
-            depth += 1;
-        }
-        assert!(leaf[node]);
-        assert!(!visited[node], "C09: DFS ran the same schedule twice");
-        visited[node] = true;
-        execs += 1;
-        e += 1;
-    }
-    assert!(terminated, "C09: DFS did not stop after the tree was exhausted");
+    });
     match max_iterations {
         None => {
+            assert!(terminated, "C09: DFS did not stop after the tree was exhausted");
             assert!(execs == n_leaves, "C09: DFS skipped a schedule");
             let mut n = 1;
-            while n < NODES {
+            crate::unroll!(7, {
                 assert!(visited[n] == leaf[n], "C09: DFS skipped a schedule");
                 n += 1;
-            }
+            });
         }
         Some(k) => {
             let want = if k < n_leaves { k } else { n_leaves };
             assert!(execs == want, "C09: iteration bound not honoured exactly");
+            assert!(terminated, "C09: DFS did not stop at the iteration bound / end of the tree");
         }
     }
     kani::cover!(n_leaves >= 3, "tree with at least 3 leaves");
     kani::cover!(n_leaves == 1, "tree with a single schedule");
-    kani::cover!(n_leaves == NODES / 2, "complete binary tree");
+    kani::cover!(n_leaves == 4, "complete binary tree");
     std::mem::forget(sched);
     std::mem::forget(t0);
     std::mem::forget(t1);
 }
 
 crate::harness! {
-    #[kani::unwind(10)]
-    fn c09_dfs_depth2() { dfs_tree::<2, 8, 1>(None); }
+    #[kani::unwind(6)]
+    fn c09_dfs_depth2() { dfs_tree2::<1>(None); }
 }
 crate::harness! {
-    #[kani::unwind(10)]
-    fn c09_dfs_depth2_gap_ids() { dfs_tree::<2, 8, 2>(None); }
+    #[kani::unwind(6)]
+    fn c09_dfs_depth2_gap_ids() { dfs_tree2::<2>(None); }
 }
 crate::harness! {
-    #[kani::unwind(10)]
+    #[kani::unwind(6)]
     fn c09_dfs_depth2_maxiter() {
         let k: usize = kani::any();
         kani::assume(k <= 5);
-        dfs_tree::<2, 8, 1>(Some(k));
-    }
-}
-crate::harness! {
-    #[kani::unwind(18)]
-    fn c09_dfs_depth3() { dfs_tree::<3, 16, 1>(None); }
-}
-crate::harness! {
-    #[kani::unwind(18)]
-    fn c09_dfs_depth3_maxiter() {
-        let k: usize = kani::any();
-        kani::assume(k <= 9);
-        dfs_tree::<3, 16, 1>(Some(k));
+        dfs_tree2::<1>(Some(k));
     }
 }
